@@ -10,6 +10,8 @@ type Int struct {
 
 func NewInt(typ string) *Int {
 	number := NewCharacteristic(typ)
+	number.Format = FormatInt32
+
 	return &Int{number}
 }
 
